@@ -138,6 +138,18 @@ def _propagation(ctx, rep):
             continue
         if callee is not None:
             calls = calls_in(f, callee)
+            # the position of the callee's reference-time parameter is read from its definition
+            # (a parameter added in front of it moves it)
+            if kw is not None:
+                for m_ in (cm, pm, rm, ctx.imod("ctparse.time.postprocess_latent")):
+                    hit = [fn_ for q_, fn_ in m_.funcs.items() if q_ == callee or q_.endswith("." + callee)]
+                    if len(hit) == 1:
+                        pn_ = [a_.arg for a_ in hit[0].args.args]
+                        if getattr(hit[0], "_cls", None) and pn_ and pn_[0] in ("self", "cls"):
+                            pn_ = pn_[1:]
+                        if kw in pn_:
+                            idx = pn_.index(kw)
+                        break
         else:
             # call of a parameter/closure variable with the reference time first
             cands = set(params) | _closure_names(f)
@@ -172,23 +184,57 @@ def _propagation(ctx, rep):
     # exactly on the branch where the parameter is None
     gen = cm.func("ctparse_gen")
     ok = False
+    NOW = ("datetime.now()", "datetime.today()")
     for n in ast.walk(gen):
-        if isinstance(n, ast.Assign) and norm(n.value) in ("datetime.now()", "datetime.today()") \
+        var = None
+        if isinstance(n, ast.Assign) and norm(n.value) in NOW \
                 and len(n.targets) == 1 and isinstance(n.targets[0], ast.Name):
             var = n.targets[0].id
             pol = _none_branch(n, gen, "ts")
             if not pol:
                 continue
+        elif isinstance(n, (ast.Assign, ast.AnnAssign)) and isinstance(n.value, ast.IfExp):
+            # v = now() if ts is None else ts   (a fresh name for the narrowed value)
+            tg = n.targets[0] if isinstance(n, ast.Assign) and len(n.targets) == 1 else getattr(n, "target", None)
+            t_, b_, o_ = norm(n.value.test), norm(n.value.body), norm(n.value.orelse)
+            if isinstance(tg, ast.Name) and (
+                    (t_ in ("ts is None", "not ts") and b_ in NOW and o_ == "ts") or
+                    (t_ in ("ts is not None", "ts") and o_ in NOW and b_ == "ts")):
+                var = tg.id
+        if var is not None:
             # that variable is what reaches _ctparse
             T = st_.Terms(cm)
             T.run(gen.body, {a.arg: ("var", a.arg) for a in gen.args.args})
+            ti = 1
+            cdef = cm.funcs.get("_ctparse")
+            if cdef is not None and "ts" in [a_.arg for a_ in cdef.args.args]:
+                ti = [a_.arg for a_ in cdef.args.args].index("ts")
             for (name, ats, node) in T.calls:
-                if name == "_ctparse" and len(ats) > 1 and _is_ref_time(ats[1], "ts", allow_now=True) \
-                        and st_.find(ats[1], "mcall") and isinstance(node.args[1], ast.Name) \
-                        and node.args[1].id == var:
+                if name == "_ctparse" and len(ats) > ti and len(node.args) > ti \
+                        and _is_ref_time(ats[ti], "ts", allow_now=True) \
+                        and st_.find(ats[ti], "mcall") and isinstance(node.args[ti], ast.Name) \
+                        and node.args[ti].id == var:
                     ok = True
-    rep.add("reference-time", cm.rel + "::ctparse_gen::default", cm.where(gen), ok,
-            "" if ok else "an omitted reference time is not replaced by the current time")
+    if ok:
+        rep.ok("reference-time", cm.rel + "::ctparse_gen::default", cm.where(gen))
+    else:
+        # the parameter handed on as it came (possibly None), or a default this clause does not read
+        T2 = st_.Terms(cm)
+        T2.run(gen.body, {a.arg: ("var", a.arg) for a in gen.args.args})
+        cdef = cm.funcs.get("_ctparse")
+        ti = [a_.arg for a_ in cdef.args.args].index("ts") if cdef is not None and \
+            "ts" in [a_.arg for a_ in cdef.args.args] else 1
+        seen_ = [ats[ti] for (name, ats, node) in T2.calls if name == "_ctparse" and len(ats) > ti]
+        defaults = [d_ for d_ in gen.args.defaults + gen.args.kw_defaults if d_ is not None]
+        ts_optional = any(isinstance(d_, ast.Constant) and d_.value is None for d_ in defaults)
+        if seen_ and all(t_ == ("var", "ts") for t_ in seen_) and ts_optional and \
+                not any(norm(x) in ("datetime.now()", "datetime.today()") for x in ast.walk(gen)
+                        if isinstance(x, ast.Call)):
+            rep.violated("reference-time", cm.rel + "::ctparse_gen::default", cm.where(gen),
+                         "an omitted reference time is not replaced by the current time")
+        else:
+            rep.undecided("reference-time", cm.rel + "::ctparse_gen::default", cm.where(gen),
+                          "how an omitted reference time is defaulted is not recognised")
 
 
 def _is_now(t):
